@@ -73,6 +73,9 @@ func makeAnnoCase(r *fw.Rng, thorough bool, format, form string, vp gen.VarProfi
 	}
 	ac.an = gen.MakeAnnotation(r, L, opts)
 	ac.format, ac.form = format, form
+	if opts.AmbigRef && r.Chance(0.3) {
+		ambiguateReference(r, &ac.an)
+	}
 	ref := ac.an.Ref
 	if form == "fasta" {
 		nq := r.Range(1, nqMax)
@@ -104,7 +107,7 @@ func makeAnnoCase(r *fw.Rng, thorough bool, format, form string, vp gen.VarProfi
 		}
 		if !fromAnno {
 			ac.refID = ac.an.RefName
-			refRec := gen.FastaRec{ID: ac.an.RefName, Desc: ac.an.RefName + " reference genome", Seq: ac.msa.RefRow}
+			refRec := gen.FastaRec{ID: ac.an.RefName, Desc: ac.an.RefName + []string{" reference genome", "\tWuhan-Hu-1 complete genome", "", "  x"}[r.Intn(4)], Seq: ac.msa.RefRow}
 			at := []int{0, len(recs) / 2, len(recs)}[r.Intn(3)]
 			recs = append(recs[:at], append([]gen.FastaRec{refRec}, recs[at:]...)...)
 		}
@@ -213,7 +216,7 @@ func runC04(c *fw.Ctx, idx int) fw.Result {
 	if r.Chance(0.25) {
 		form = "sam"
 	}
-	opts := gen.AnnoOpts{MaxFeats: 6, AllowUnnamed: true, AllowSlip: true, SplitCodons: true, Isoforms: true, Rotate: true, NoStop: true, DupNames: true, CRLF: true}
+	opts := gen.AnnoOpts{MaxFeats: 6, AllowUnnamed: true, AllowSlip: true, SplitCodons: true, Isoforms: true, Rotate: true, NoStop: true, DupNames: true, CRLF: true, AmbigRef: true}
 	ac := makeAnnoCase(r, c.Thorough(), format, form, gen.DefaultVarProfile(), 8, opts)
 	threads := pickThreads(r)
 	outA, errA := ac.runVariants(-1, -1, false, 0, true, threads)
@@ -372,6 +375,53 @@ func runC04(c *fw.Ctx, idx int) fw.Result {
 		}
 	}
 	res.Count("queries", len(ac.pairs))
+	// --aggregate --append-snps loses no position either: the positions mentioned over the whole
+	// table are exactly those at which some query differs from the reference
+	if idx%4 == 2 && len(res.Viol) == 0 {
+		agg, errAgg := ac.runVariants(-1, -1, true, 0, true, threads)
+		res.Evals++
+		if errAgg != nil {
+			res.Fail(class+":error-on-valid-input", "variants --aggregate returned an error on valid input: "+errAgg.Error(), files, argv)
+		} else {
+			want := map[int]bool{}
+			for _, pv := range ac.pairs {
+				for _, sn := range pv.SNPs() {
+					want[sn.Pos] = true
+				}
+			}
+			got := map[int]bool{}
+			lines := strings.Split(strings.TrimSuffix(agg, "\n"), "\n")
+			for _, l := range lines[1:] {
+				i := strings.LastIndexByte(l, ',')
+				if i < 0 {
+					continue
+				}
+				if m, ok := model.ParseMutation(l[:i]); ok {
+					if m.Kind == "nuc" {
+						got[m.Pos] = true
+					}
+					for _, in := range m.Inner {
+						got[in.Pos] = true
+					}
+				}
+			}
+			res.Count("aggregate_position_sets_checked", 1)
+			for p := range want {
+				if !got[p] {
+					files["observed_aggregate_append_snps.csv"] = agg
+					res.Fail(class+":aggregate-position-dropped", fmt.Sprintf("position %d differs from the reference in some query but is mentioned nowhere in the --aggregate --append-snps table", p), files, append(argv, "--aggregate"))
+					break
+				}
+			}
+			for p := range got {
+				if !want[p] {
+					files["observed_aggregate_append_snps.csv"] = agg
+					res.Fail(class+":aggregate-position-invented", fmt.Sprintf("position %d is mentioned in the --aggregate --append-snps table but no query differs from the reference there", p), files, append(argv, "--aggregate"))
+					break
+				}
+			}
+		}
+	}
 	// signature
 	strands, segs := "", ""
 	unnamed, children := false, false
@@ -464,3 +514,39 @@ func stdinOrNil(use bool, s string) []byte {
 }
 
 func strconvFloat(f float64) string { return strconv.FormatFloat(f, 'g', -1, 64) }
+
+// ambiguateReference puts IUPAC ambiguity codes into coding positions of the reference where
+// every expansion leaves every feature's protein unchanged (GCN is still Ala, CTR still Leu,
+// YTA still Leu): the reference protein is as well defined as before.
+func ambiguateReference(r *fw.Rng, an *gen.Annotation) {
+	ref := []byte(an.Ref)
+	prot := func(f gen.Feature) string { return model.TranslateFeature(string(ref), f) }
+	before := make([]string, len(an.Feats))
+	for i, f := range an.Feats {
+		before[i] = prot(f)
+	}
+	codesWith := map[byte]string{'A': "RMWDHVN", 'C': "YMSBHVN", 'G': "RKSBDVN", 'T': "YKWBDHN"}
+	tries := r.Range(1, 8)
+	for t := 0; t < tries; t++ {
+		f := an.Feats[r.Intn(len(an.Feats))]
+		pos := f.CodingPositions()
+		p := pos[r.Intn(len(pos))]
+		old := ref[p-1]
+		cs, ok := codesWith[old]
+		if !ok {
+			continue
+		}
+		ref[p-1] = cs[r.Intn(len(cs))]
+		same := true
+		for i, g := range an.Feats {
+			if prot(g) != before[i] {
+				same = false
+				break
+			}
+		}
+		if !same {
+			ref[p-1] = old
+		}
+	}
+	an.Ref = string(ref)
+}
